@@ -168,6 +168,9 @@ def write_gmx_topology(system,
     max_name_length = 0
     # * We keep track of groups of successive molecules with the same moltypes.
     moltype_count = []  # items will be [moltype, number of molecules]
+    # * We keep track of the order in which the moltypes are first encountered,
+    #   each ITP file must be included only once.
+    moltype_includes = []
 
     # Iterate over groups of successive molecules with the same moltypes. We
     # shall *NOT* sort the molecules before hand, as groups of successive
@@ -216,6 +219,7 @@ def write_gmx_topology(system,
             if this_moltype_len > max_name_length:
                 max_name_length = this_moltype_len
             moltype_written.add(moltype)
+            moltype_includes.append(moltype)
         # We already removed one element from the "molecules" generator, do not
         # forget to count it in the number of molecules in that group.
         moltype_count.append([moltype, 1 + len(list(molecules))])
@@ -235,7 +239,7 @@ def write_gmx_topology(system,
     """
     )
     include_string = include_string + "\n".join(
-        '#include "{}.itp"'.format(molecule_type) for molecule_type, _ in moltype_count
+        '#include "{}.itp"'.format(molecule_type) for molecule_type in moltype_includes
     )
     molecule_string = "\n".join(
         "{mtype:<{length}}    {num}".format(
